@@ -567,6 +567,10 @@ static int Campaign(const Inputs& in, const fs::path& scratch, bool big, Totals&
     for (int pass = 0; pass < 2; pass++) {
         fp::Pool pool;
         pool.workers = 8;
+        // every batch runs in a fresh fork of an untouched worker: thousands of (failed) activations in one process
+        // eventually make an in-memory LevelDB schedule a compaction, i.e. start a thread, after which the
+        // set-preserving cases could no longer be forked soundly
+        pool.isolate_jobs = true;
         pool.on_worker_start = [&](unsigned) { w.PrivateDatadir(); };
         pool.run((total + BATCH - 1) / BATCH, [&](uint64_t job, fp::Out& out) {
             World::State base = w.Observe();
